@@ -438,12 +438,16 @@ func runC19(c *Ctx) {
 	c.Clause("C19.2 validation helpers have the expected tests; request construction rules (CONNECT / extended CONNECT / ordinary) and missing :status are errors")
 	c.Clause("C19.3 writer ↔ parser tables: connection-specific names the parser rejects are exactly those the request writer drops; pseudo-header names the writers emit are known to the parser and of the right kind; writers lower-case every name")
 	c.Clause("C19.4 error mapping on the server: too large → 431 + H3_EXCESSIVE_LOAD, QPACK failure → QPACK_DECOMPRESSION_FAILED, otherwise H3_MESSAGE_ERROR")
+	c.Clause("C19.5 Stream.Read marks the trailer section as consumed whether or not parsing it succeeds; DATA and HEADERS after trailers are errors")
+	c.Clause("C19.6 in the request and response writers no pseudo-header emission is reachable from a regular-field emission")
 	c.NotCovered("httpguts predicates themselves; semantic equality of decoded fields")
 
 	c.rule("C19.1", func() { c19Parse(c) })
 	c.rule("C19.2", func() { c19Helpers(c) })
 	c.rule("C19.3", func() { c19Tables(c) })
 	c.rule("C19.4", func() { c19ErrorMap(c) })
+	c.rule("C19.5", func() { c19TrailerOnce(c) })
+	c.rule("C19.6", func() { c19PseudoFirst(c) })
 }
 
 // callsParam: call of the function-typed parameter with the given name.
